@@ -50,8 +50,15 @@ def _cases(draw, dmax):
     cap = None if d <= 4 else (12 if d == 5 else 8)
     a = draw(S.operand(d, max_len=cap))
     b = draw(S.operand(d, max_len=cap))
+    graded = d <= 5 and draw(st.integers(0, 7)) == 0
+    if graded:
+        # graded mode: operands are complete grades in canonical order (default basis); the product must be the same element
+        cfg["basis"] = None
+        cfg.pop("named", None)
+        a = draw(S.operand(d, classes=["gradeblock"]))
+        b = draw(S.operand(d, classes=["gradeblock"]))
     return {"cfg": cfg, "a": a, "b": b, "mode": draw(st.sampled_from(["generic", "generic", "frac", "typed"])),
-            "cse": draw(st.booleans()), "wrapper": draw(st.integers(0, 4)) == 0}
+            "cse": draw(st.booleans()), "wrapper": draw(st.integers(0, 4)) == 0, "graded": graded}
 
 
 def cases(tier):
@@ -87,7 +94,8 @@ def _values(opnd, mode, prefix):
     if mode == "generic" or opnd.get("vals") is None:
         return [Q.var(f"{prefix}{k}") for k in opnd["keys"]]
     if mode == "typed" and opnd.get("tvals"):
-        return S.decode_typed(opnd["tvals"])
+        from .. import values as V
+        return V.decode(opnd["tvals"])
     return [frac(v) for v in opnd["vals"]]
 
 
@@ -95,7 +103,7 @@ def evaluate(case):
     cfg = case["cfg"]
     ref = RefAlgebra(cfg)
     Rr = R(ref.d, ref.T)
-    alg = kd.build_algebra(cfg, cse=case["cse"], wrapper=bool(case.get("wrapper")))
+    alg = kd.build_algebra(cfg, cse=case["cse"], wrapper=bool(case.get("wrapper")), graded=bool(case.get("graded")))
     ka, kb = case["a"]["keys"], case["b"]["keys"]
     va, vb = _values(case["a"], case["mode"], "a"), _values(case["b"], case["mode"], "b")
     x, y = kd.mk(alg, ka, va), kd.mk(alg, kb, vb)
@@ -116,9 +124,10 @@ def evaluate(case):
                         observed=kd.show(got2), expected=kd.show(exp))
     # the same two elements stored in another key order, on the SAME algebra, then the original order again: each order
     # is its own generated function and none may disturb the other ("in whatever order")
-    if len(ka) > 1 or len(kb) > 1:
-        ka2, va2 = ka[::-1], va[::-1]
-        kb2, vb2 = (kb[1:] + kb[:1], vb[1:] + vb[:1]) if len(kb) > 1 else (kb, vb)
+    if (len(ka) > 1 or len(kb) > 1) and not case.get("graded"):
+        va_l, vb_l = list(va), list(vb)
+        ka2, va2 = ka[::-1], va_l[::-1]
+        kb2, vb2 = (kb[1:] + kb[:1], vb_l[1:] + vb_l[:1]) if len(kb) > 1 else (kb, vb_l)
         x2, y2 = kd.mk(alg, ka2, va2), kd.mk(alg, kb2, vb2)
         for what, p, q in (("reordered operands", x2, y2), ("original order after the reordered call", x, y)):
             try:
@@ -137,7 +146,12 @@ def evaluate(case):
                 contrib[i ^ j] = contrib.get(i ^ j, 0) + 1
     noncanon = (not S.is_canonical(ka)) or (not S.is_canonical(kb))
     nontrivial = bool(ka) and bool(kb) and (any(c >= 2 for c in contrib.values()) or noncanon)
-    labels = [f"d:{ref.d}", f"mode:{case['mode']}", f"cse:{case['cse']}",
+    if case["mode"] == "typed" and case["a"].get("tvals"):
+        from .. import values as V
+        extra_labels = ["repr:" + V.describe(case["a"]["tvals"])]
+    else:
+        extra_labels = []
+    labels = extra_labels + [f"d:{ref.d}", f"mode:{case['mode']}", f"cse:{case['cse']}",
               "order:noncanonical" if noncanon else "order:canonical",
               "basis:custom" if cfg.get("basis") else "basis:default",
               f"clsA:{case['a']['cls']}"]
@@ -145,6 +159,8 @@ def evaluate(case):
         labels.append("sig:degenerate")
     if ref.d >= 7:
         labels.append("lazy:d>=7")
+    if case.get("graded"):
+        labels.append("opt:graded")
     if not ka or not kb:
         labels.append("operand:empty")
     key = [cfg["sig"], cfg.get("start"), cfg.get("basis"), ka, kb, case["cse"], case["mode"], bool(case.get("wrapper"))]
